@@ -117,8 +117,9 @@ class Hist:
         for ev in self.cancel_events(c):
             self.items.append(("env", ev))
 
-    def inv(self, api, ctx, expr, gates_fn=None):
-        """gates_fn(h, w) -> list of event lists, called after the watcher w of this start is registered"""
+    def inv(self, api, ctx, expr, gates_fn=None, imp=False):
+        """gates_fn(h, w) -> list of event lists, called after the watcher w of this start is registered;
+        imp: the program begins with `import math` (math is a module among the VM's globals)"""
         w = self.ninv
         self.ninv += 1
         if ctx in self.cancelled:
@@ -128,7 +129,7 @@ class Hist:
         else:
             self.unfired.setdefault(ctx, []).append(w)
             gates = gates_fn(self, w) if gates_fn else []
-        self.items.append(("inv", api, ctx, expr, gates))
+        self.items.append(("inv", api, ctx, expr, gates, imp))
 
     def model_line(self):
         out = [self.id, str(self.g0)]
@@ -136,8 +137,8 @@ class Hist:
             if it[0] == "env":
                 out += ["E", it[1][0], str(it[1][1])]
             else:
-                _, api, ctx, expr, gates = it
-                out += ["I", api, str(ctx), str(len(gates))]
+                _, api, ctx, expr, gates, imp = it
+                out += ["I", api, str(ctx), "1" if imp else "0", str(len(gates))]
                 for evs in gates:
                     out.append(str(len(evs)))
                     for ev in evs:
@@ -153,15 +154,15 @@ class Hist:
             if it[0] == "env":
                 items.append({"k": "env", "ev": it[1]})
             else:
-                _, api, ctx, expr, gates = it
+                _, api, ctx, expr, gates, imp = it
                 d = {"k": "inv", "api": api, "ctx": ctx, "gates": gates}
                 if api == "CL":
                     fn = "c%d" % k
-                    lib += "func %s() { %s }\n" % (fn, body_src(expr))
+                    lib += "func %s() { %s%s }\n" % (fn, "import math; " if imp else "", body_src(expr))
                     d["fn"] = fn
                     d["src"] = ""
                 else:
-                    d["src"] = top_src(expr)
+                    d["src"] = ("import math\n" if imp else "") + top_src(expr)
                 k += 1
                 items.append(d)
         return {"id": self.id, "g0": self.g0, "lib": lib, "items": items}
@@ -197,6 +198,10 @@ def kind_expr(kind, rng, k):
     raise ValueError(kind)
 
 
+def uses_lib(e):
+    return e[0] in ("D", "F") or any(uses_lib(x) for x in e[1:] if isinstance(x, tuple))
+
+
 def has_gate(e):
     return e[0] in ("T",) or any(has_gate(x) for x in e[1:] if isinstance(x, tuple))
 
@@ -210,6 +215,8 @@ def gen_history(hid, rng, length, kinds=None, apis=None, repl=None):
     pending = []       # contexts of finished invocations not yet cancelled
     nctx = 0
     loader_ok = False
+    seen_rn = False
+    main_live = False   # the library functions defined by the first Run are still assigned in the main code's globals
     for k in range(length):
         kind = kinds[k] if kinds else rng.choice(KINDS)
         if apis:
@@ -236,8 +243,25 @@ def gen_history(hid, rng, length, kinds=None, apis=None, repl=None):
         # a Call needs the function table of the code loaded last: that load must have got past its definitions
         if api == "CL" and not loader_ok:
             api = "RC" if proto != "repl" else "RN"
-        if api != "CL":
+        if api == "RC":
             loader_ok = ctx not in h.cancelled
+            main_live = False          # resetForNewCode drops the main code's script-level globals (by design)
+        elif api == "RN":
+            if not seen_rn:
+                seen_rn = True
+                main_live = ctx not in h.cancelled
+            elif not main_live:
+                # script-level definitions are gone: the piece must stand on its own
+                if kind in ("frames", "stack"):
+                    kind = "err"
+                for _ in range(8):
+                    if not uses_lib(expr):
+                        break
+                    expr = kind_expr(kind, rng, k)
+                if uses_lib(expr):
+                    expr = ("S", ("A", 1), ("B", ("G",), ("L", k)))
+            loader_ok = main_live
+        imp = rng.chance(1, 3)
 
         def gates_fn(hh, w, kind=kind, ctx=ctx):
             gates = []
@@ -269,8 +293,8 @@ def gen_history(hid, rng, length, kinds=None, apis=None, repl=None):
                     hh.tags.append("diverge")
             return gates
 
-        h.inv(api, ctx, expr, gates_fn)
-        h.tags.append(kind + ":" + api)
+        h.inv(api, ctx, expr, gates_fn, imp=imp)
+        h.tags.append(kind + ":" + api + (":import" if imp else ""))
         if ctx not in h.cancelled and ctx not in pending:
             pending.append(ctx)
         if "diverge" in h.tags:
@@ -298,7 +322,7 @@ def enumerate_pairs(rng):
                             if k1 == "spin":
                                 gs += [[], hh.cancel_events(0)]
                             return gs
-                        h.inv(a1, 0, e1, g1)
+                        h.inv(a1, 0, e1, g1, imp=(n % 2 == 1))
                         if place == "after" and 0 not in h.cancelled:
                             h.env_cancel(0)
 
@@ -314,7 +338,7 @@ def enumerate_pairs(rng):
                                     gs.append(hh.cancel_events(0))
                                 gs += [[], hh.cancel_events(1)]
                             return gs
-                        h.inv(a2, 1, e2, g2)
+                        h.inv(a2, 1, e2, g2, imp=(n % 3 == 1))
                         h.tags += [k1 + ":" + a1, k2 + ":" + a2, "place-" + place]
                         out.append(h)
     return out
@@ -327,6 +351,7 @@ WITNESSES = [
     ("w_residue", lambda: _w_residue()),
     ("w_leak", lambda: _w_leak()),
     ("w_run_runcode_run", lambda: _w_rrr()),
+    ("w_import_twice", lambda: _w_import()),
 ]
 
 
@@ -367,6 +392,14 @@ def _w_rrr():
     h.inv("RN", 0, ("L", 5))
     h.inv("RC", 0, ("N", 3, ("L", 6)))
     h.inv("RN", 0, ("L", 7))
+    return h
+
+
+def _w_import():
+    h = Hist("w_import_twice")
+    h.inv("RC", 0, ("L", 5), imp=True)
+    h.inv("RC", 0, ("L", 6), imp=True)
+    h.inv("CL", 0, ("L", 7), imp=True)
     return h
 
 
@@ -416,20 +449,7 @@ def load_known_c():
 
 
 def known_class(h, k):
-    """Decidable class predicate of the known finding: invocation k is a Run() and a RunCode ran earlier on the VM."""
-    invs = [it for it in h.items if it[0] == "inv"]
-
-    def wild(j):
-        return invs[j][1] == "RN" and any(it[1] == "RC" for it in invs[:j])
-    if wild(k):
-        return "C07-run-after-runcode"
-    if invs[k][1] == "CL":
-        # a Call uses the functions of the code the VM loaded last: after a wild Run those were never defined
-        j = k - 1
-        while j >= 0 and invs[j][1] == "CL":
-            j -= 1
-        if j >= 0 and wild(j):
-            return "C07-run-after-runcode"
+    """no known finding is left for C07: every difference from a new VM is a violation"""
     return None
 
 
@@ -527,10 +547,7 @@ def _body(res, tier, obs, model, work, proved):
                     corr_diffs.append({"history": h.id, "k": k, "impl": ip, "model": None, "model_line": h.model_line()})
                     break
                 mo, mg = mparts[k]
-                if mo == "WILD":
-                    wild = True
-                    unpredicted += len(iparts) - k
-                elif mo != shared or mg != g:
+                if mo != shared or mg != g:
                     corr_diffs.append({"history": h.id, "k": k, "impl": [shared, g], "model": [mo, mg],
                                        "model_line": h.model_line(), "impl_json": h.impl_json()})
                     break
@@ -547,23 +564,22 @@ def _body(res, tier, obs, model, work, proved):
     # regression witnesses: what the model of the code BEFORE each repair predicts, for the evidence
     wl = [by_id[n].model_line() for n, _ in WITNESSES]
     pre = {}
-    for cfgname in ("pinned", "nopush", "nodrop"):
+    for cfgname in ("pinned", "nopush", "nodrop", "norunip", "nomods"):
         r, e = run_sharded(model, wl, work, "w_" + cfgname, (cfgname,))
         pre[cfgname] = {k: _short(v) for k, v in r.items()}
     cov["evaluations"] = evals
     cov["distinct_nontrivial"] = len(nontrivial)
-    cov["rule"] = ("histories on ONE shared VM through vm.New/NewEmpty, RunCode, Run (REPL protocol), Call: the 5 witness histories of "
+    cov["rule"] = ("histories on ONE shared VM through vm.New/NewEmpty, RunCode, Run (REPL protocol), Call: the 6 witness histories of "
                    "props/C07.v; every (kind,api) x (kind,api) pair x {first context never cancelled, cancelled after its run, "
                    "cancelled inside the second run} (%d histories); seeded random histories of length 3..%d with kinds "
                    "{normal, gated, error at depth d with p operands pending, host panic at depth d, frame exhaustion, stack "
-                   "exhaustion, spin until cancelled}, contexts shared or not, earlier contexts cancelled between runs / inside a "
+                   "exhaustion, spin until cancelled} with or without a leading `import math` of a module global, contexts shared or not, earlier contexts cancelled between runs / inside a "
                    "later run's host builtin / while a later run spins, own context cancelled before or during the run. Each "
                    "invocation is also run on a VM created for it (same global, own-context events only) = oracle; the extracted "
                    "model predicts outcome and global of every invocation. Non-trivial = distinct (tag sequence, position) with an "
                    "earlier abnormal end or a stale cancellation in play." % (len(enumerate_pairs(C.Rng(1))), max(nrand)))
     cov["samples"] = samples
-    cov["correspondence"] = {"invocations": evals, "differences": len(corr_diffs), "model_unpredicted_after_wild": unpredicted,
-                             "settle_timeouts": settle_to,
+    cov["correspondence"] = {"invocations": evals, "differences": len(corr_diffs),                              "settle_timeouts": settle_to,
                              "histories_skipped_after_a_hang": skipped}
     cov["input_distribution"] = {"histories": len(hs), "outcomes_on_shared_vm": outcome_hist}
     cov["witness_predictions_before_repairs"] = pre
@@ -573,15 +589,9 @@ def _body(res, tier, obs, model, work, proved):
         "realised are those in which every cancel is followed by its watchers' stores; the theorem covers all placements",
         "programs are modelled by expression trees whose stack use approximates the bytecode's up to a constant per call; the generator "
         "stays >= 70 frames/slots away from the 1024 bounds except in the exhaustion kinds",
-        "Run() is exercised with the REPL's protocol of cmd/risor/repl (one compiler, code appended, SetIP after an error)",
+        "Run() is exercised with the REPL's protocol of cmd/risor/repl (one compiler, code appended, SetIP after an error); after a RunCode has dropped the main code's script-level globals the pieces given to Run define everything they use",
         "script-level globals are not carried between invocations by RunCode; the 'current values of global variables' are host globals",
     ]
-    # the refutation witness of the code as it is must still reproduce, otherwise the model is out of date
-    wparts = [p.split("|") for p in impl["w_run_runcode_run"].split(";")]
-    if len(wparts) == 3 and wparts[2][0] == wparts[2][2] and wparts[2][1] == wparts[2][3]:
-        corr_diffs.append({"history": "w_run_runcode_run", "impl": impl["w_run_runcode_run"],
-                           "why": "the witness of C07_refuted_run_after_runcode no longer differs from a new VM on the implementation: "
-                                  "the defect seems repaired, the model (OWild) and known_findings.c.jsonl are out of date"})
     known = load_known_c()
     for cls, vs in known_hits.items():
         match = [kf for kf in known if kf.get("id") == cls]
